@@ -631,3 +631,123 @@ def param_mutations(p, f, pname, ctx=None, depth=0, seen=None):
 
     walk(f.node.body, frozenset([pname]))
     return out
+
+
+# ---------------------------------------------------------------------------------------------
+# results do not depend on the order of keys in a dictionary
+
+KEYORDER_POSITIVE = '''
+def f(c):
+    flag = False
+    n = 0
+    out = []
+    for k, v in c.items():
+        if k == 'type':
+            flag = v == 'date'
+        elif flag:
+            out.append(v)
+        n += 1
+        last = v
+    return out, n, last
+'''
+
+def dict_loop(s):
+    it = s.iter
+    return isinstance(it, ast.Call) and isinstance(it.func, ast.Attribute) and it.func.attr in ('items','keys','values','iteritems')
+
+def reads(e, name):
+    return any(isinstance(x, ast.Name) and x.id == name and isinstance(x.ctx, ast.Load) for x in ast.walk(e))
+
+def access(s, name):
+    if isinstance(s, ast.If):
+        if reads(s.test, name): return 'r'
+        a = first_access(s.body, name); b = first_access(s.orelse, name)
+        if a == 'r' or b == 'r': return 'r'
+        if a == 'w' and b == 'w': return 'w'
+        return None if (a is None and b is None) else 'p'   # partial write: keep scanning, later read = carried
+    if isinstance(s, (ast.For, ast.While)):
+        hdr = s.iter if isinstance(s, ast.For) else s.test
+        if reads(hdr, name): return 'r'
+        a = first_access(s.body, name)
+        if a == 'r': return 'r'
+        return None if a is None else 'p'
+    if isinstance(s, ast.Try):
+        a = first_access(s.body, name)
+        if a == 'r': return 'r'
+        for h in s.handlers:
+            if first_access(h.body, name) == 'r': return 'r'
+        if first_access(s.orelse, name) == 'r' or first_access(s.finalbody, name) == 'r': return 'r'
+        return None if a is None else 'p'
+    if isinstance(s, ast.With):
+        return first_access(s.body, name)
+    if isinstance(s, ast.Assign):
+        if reads(s.value, name): return 'r'
+        from .c10 import stored_names
+        if name in stored_names(s): return 'w'
+        return 'r' if any(reads(t, name) for t in s.targets) else None
+    if isinstance(s, ast.AugAssign):
+        if isinstance(s.target, ast.Name) and s.target.id == name: return 'acc'
+        return 'r' if reads(s, name) else None
+    return 'r' if reads(s, name) else None
+
+def first_access(stmts, name):
+    """'r' when some path through stmts reads name before assigning it, 'w' when every path assigns it first,
+    'acc' for an accumulation (x += ...), 'p' when only some paths assign it, None when it is not touched."""
+    seen_partial = False
+    for s in stmts:
+        r = access(s, name)
+        if r == 'r': return 'r'
+        if r == 'acc': return 'acc'
+        if r == 'w': return 'w'
+        if r == 'p': seen_partial = True
+    return 'p' if seen_partial else None
+
+
+
+def keyorder_sites(p_own_nodes, fnode):
+    """(loop, name) for every local that a loop over a dictionary's items/keys/values carries from one key to the next:
+    assigned in the body by a plain (non-accumulating) assignment, and read in the body on a path that has not
+    assigned it in the same iteration - so what is read depends on which keys came earlier."""
+    from .c10 import stored_names
+    out = []
+    for s in p_own_nodes:
+        if isinstance(s, ast.For) and dict_loop(s):
+            assigned = set()
+            for x in ast.walk(s):
+                if isinstance(x, ast.Assign):
+                    for t in x.targets:
+                        if isinstance(t, ast.Name):
+                            assigned.add(t.id)
+            tv = set(stored_names(s))
+            for nm in sorted(assigned - tv):
+                plain = [x for x in ast.walk(s) if isinstance(x, ast.Assign) and
+                         any(isinstance(t, ast.Name) and t.id == nm for t in x.targets) and not reads(x.value, nm)]
+                if plain and first_access(s.body, nm) == 'r':
+                    out.append((s, nm, plain[0]))
+    return out
+
+
+def keyorder_rule(run, rid, p, funcs, text):
+    from .c10 import stored_names
+    run.rule(rid, text)
+    ex = ast.parse(KEYORDER_POSITIVE).body[0]
+    got = [nm for s, nm, a in keyorder_sites([x for x in ast.walk(ex)], ex)]
+    if got != ['flag']:
+        raise AnalysisErrorCommon('key-order rule no longer matches its embedded example: %r' % (got,))
+    n = 0
+    for f in funcs:
+        loops = [s for s in p.own_nodes(f) if isinstance(s, ast.For) and dict_loop(s)]
+        if not loops:
+            continue
+        sites = keyorder_sites(list(p.own_nodes(f)), f.node)
+        for s in loops:
+            n += 1
+            bad = [(nm, a) for l, nm, a in sites if l is s]
+            key = '%s::%s::for %s in %s' % (f.rel, f.short, norm(s.target), norm(s.iter)[:40])
+            if not bad:
+                run.ob(rid, key, True, 'no local is carried from one key to the next', fn=f, node=s)
+            for nm, a in bad:
+                run.ob(rid, key + '::' + nm, False,
+                       '%s is set while handling one key (%s) and read while handling another: the outcome depends on the order of '
+                       'the keys in %s' % (nm, norm(a)[:50], norm(s.iter)[:40]), fn=f, node=a)
+    return n
